@@ -422,6 +422,33 @@ def axioms_ok(axs):
     return bad
 
 
+COQCHK_ALLOW = {
+    "Coq.Logic.FunctionalExtensionality.functional_extensionality_dep",
+    "Coq.Reals.ClassicalDedekindReals.sig_not_dec", "Coq.Reals.ClassicalDedekindReals.sig_forall_dec",
+    "Coq.Logic.Classical_Prop.classic", "Coq.Logic.ProofIrrelevance.proof_irrelevance", "Coq.Logic.JMeq.JMeq_eq",
+    "Coq.Logic.Eqdep.Eq_rect_eq.eq_rect_eq", "Coq.Logic.ClassicalEpsilon.constructive_indefinite_description",
+    "Coq.Logic.PropExtensionality.propositional_extensionality",
+}
+
+
+def coqchk(modname, timeout=600):
+    """independent re-check of the compiled property file and everything it depends on; returns (ok, axioms, log)"""
+    args = ["coqchk", "-o", "-silent", "-Q", "lib", "PP", "-Q", "gen", "PP.Gen", "-Q", "model", "PP.Model",
+            "-Q", "proofs", "PP.Proofs", "-Q", "props", "PP.Props", "PP.Props.%s" % modname]
+    rc, out, err = sh(args, cwd=COQ, timeout=timeout)
+    txt = out + err
+    if rc == 124:
+        return None, [], "independent checker did not finish within %ss" % timeout
+    axioms = []
+    m = re.search(r"\* Axioms:(.*?)\n\s*\n\s*\*", txt, re.S)
+    if m:
+        axioms = [l.strip() for l in m.group(1).split("\n") if l.strip() and l.strip() != "<none>"]
+    clean = all(("%s: <none>" % k) in txt.replace("\n", " ") for k in
+                ("relying on type-in-type", "relying on unsafe (co)fixpoints", "whose positivity is assumed"))
+    bad = [a for a in axioms if a not in COQCHK_ALLOW and not a.startswith(("Coq.Numbers.Cyclic.Int63", "Coq.Floats", "Coq.Array"))]
+    return (rc == 0 and clean and not bad), axioms, txt[-1500:]
+
+
 FORBIDDEN_RE = re.compile(r"\b(Admitted|admit|Axiom|Axioms|Parameter|Parameters|Conjecture|Admit Obligations|bypass_check|Unset Guard|Unset Positivity|Unset Universe)\b")
 
 
